@@ -1,9 +1,11 @@
 import GluonModel.Sexp
 import GluonModel.Infix
+import GluonModel.InfixTable
 open GluonModel GluonModel.Infix
 
 def parseOp : Sexp → Option Op
   | .list [.atom "op", .str n, .atom "none"] => some ⟨n, none⟩
+  | .list [.atom "op", .str n, .atom "builtin"] => some ⟨n, builtinMeta n⟩
   | .list [.atom "op", .str n, p, .atom f] =>
     match p.toInt?, f with
     | some p, "L" => some ⟨n, some ⟨p, .left⟩⟩
